@@ -4,7 +4,7 @@ import os
 
 from hypothesis import strategies as st
 
-from vf.api import Kind, check, ok, trivial
+from vf.api import Kind, check, ok, rejected, trivial
 from vf.lib import bz
 from vf.lib import c02_model as cm
 from vf.lib import graphmodel as gm
@@ -16,10 +16,12 @@ LEVEL = "exploration"
 TECHNIQUE = ("Hypothesis-generated histories built through real working-tree "
              "commits and merges, compared with an independent reference "
              "model of last-changed revisions and per-file parents")
-RULE = ("two generators on 2a and pack-0.92: (spec-dag) arbitrary revision DAGs "
+RULE = ("two generators on 2a, pack-0.92 and knit: (spec-dag) arbitrary revision DAGs "
         "of 3-14 revisions with up to 3 parents, ghost parents, symlinks, exec "
         "bits, kind-preserving edit scripts, adoption of a merged parent's "
-        "file versions and echoes of a cousin's change, committed through "
+        "file versions, echoes of a cousin's change, and a 'resurrection' "
+        "suffix (file id dropped by one merge, kept through another parent), "
+        "committed through "
         "WorkingTree.commit with set_parent_ids; (merge-script) 2-3 branches in "
         "a shared repository driven by late-bound steps: edit, twin (identical "
         "change on two branches), merge_from_branch of a tip or an older "
@@ -32,6 +34,9 @@ RULE = ("two generators on 2a and pack-0.92: (spec-dag) arbitrary revision DAGs 
         "or an identical parallel change. Distinct by case hash (DAG + edit "
         "scripts).")
 ASSUMPTIONS = [
+    "per-file heads are the maximal candidate versions in the per-file graph "
+    "(the relation Repository.check() verifies), not in the revision graph; "
+    "the two differ only for file ids absent from an intermediate revision",
     "the revision DAG used by the model is the one the harness asked for "
     "(spec parents / the working tree's parent ids before commit)",
     "the committed tree content is what the harness put on disk (read back "
@@ -52,9 +57,9 @@ LEVEL_NOTE = ("Trusted: dirstate, vcsgraph heads, bzrformats storage; the model 
               "takes the committed tree from the harness' own bookkeeping and "
               "uses its own graph code.")
 REGISTERED = False
-NONTRIVIAL_FLOOR = {"quick": 80, "thorough": 1500}
+NONTRIVIAL_FLOOR = {"quick": 150, "thorough": 3000}
 
-FORMATS = ["2a", "2a", "pack-0.92"]
+FORMATS = ["2a", "2a", "pack-0.92", "pack-0.92", "knit"]
 
 
 # --------------------------------------------------------------- spec-dag kind
@@ -132,7 +137,56 @@ def spec_case(draw, tier="quick"):
         tm.apply_ops(m, extra)
         rev["ops"] = rev["ops"] + extra
         models[rid] = m
+    if draw(st.integers(0, 4)) == 0:
+        _append_resurrection(draw, spec, models, g)
     return {"fmt": draw(st.sampled_from(FORMATS)), "spec": spec}
+
+
+def _append_resurrection(draw, spec, models, g):
+    """A file id dropped by one merge and kept through another parent: V2
+    changes f after V1; M1 = merge(P, V2) keeps P's tree (no f); M2 =
+    merge(V1, M1) keeps f and renames it; M3 = merge(V2, M2). In M3 the
+    version of V2 is an ancestor of M2's by revision graph but not in the
+    per-file graph (found by the thorough tier; see PerFileModel)."""
+    cands = []
+    for rev in spec["revs"]:
+        if not rev["parents"]:
+            continue
+        v2, v1 = rev["id"], rev["parents"][0]
+        touched = sorted({op[1] for op in rev["ops"]
+                          if op[0] in ("modify", "rename", "chmod", "retarget")
+                          and op[1] in models[v1] and op[1] in models[v2]})
+        for f in touched:
+            for p in sorted(gm.ancestry(g, v1)):
+                if f not in models[p]:
+                    cands.append((p, v1, v2, f))
+    if not cands:
+        return
+    p, v1, v2, f = draw(st.sampled_from(cands))
+    n = len(spec["revs"])
+    proto = spec["revs"][-1]
+
+    def mk(i, parents, ops):
+        return {"id": "r%d" % i, "parents": parents, "ghosts": [], "ops": ops,
+                "msg": "m%d" % i, "ts": bz.T0 + 100 * i, "tz": 0,
+                "committer": proto["committer"], "props": {}}
+    e1, e2 = models[v1][f], models[v2][f]
+    ops = [["rename", f, e1["parent"], "zz"]]
+    if e1["kind"] == "file" and e2["kind"] == "file" and \
+            (e1["parent"], e1["name"]) == (e2["parent"], e2["name"]) and \
+            draw(st.booleans()):
+        # variant: M2 makes the very change V2 made (identical parallel
+        # change); by revision graph M3 could then carry M2's version over
+        ops = []
+        if e1["content"] != e2["content"]:
+            ops.append(["modify", f, e2["content"]])
+        if e1["exec"] != e2["exec"]:
+            ops.append(["chmod", f, e2["exec"]])
+    spec["revs"].append(mk(n, [p, v2], []))
+    spec["revs"].append(mk(n + 1, [v1, "r%d" % n], ops))
+    # V2 first: V2 is an ancestor of M2, and set_parent_ids drops a
+    # non-leftmost parent that is an ancestor of another parent
+    spec["revs"].append(mk(n + 2, [v2, "r%d" % (n + 1)], []))
 
 
 def run_spec(case, env):
@@ -306,6 +360,9 @@ def run_script(case, env):
     cm.check_repository(target, model, revmap, "after-fetch")
     feats = model.all_features()
     label = cm.label_of(feats)
+    if sc.setup_failure:
+        return rejected("history set-up cut short: " + sc.setup_failure,
+                        label=("script:" + label) if label else None)
     if label is None:
         return trivial()
     return ok("script:" + label)
@@ -314,7 +371,7 @@ def run_script(case, env):
 def kinds(tier):
     return [
         Kind("spec-dag", run_spec, strategy=spec_case(tier),
-             examples={"quick": 200, "thorough": 3500}),
+             examples={"quick": 500, "thorough": 8000}),
         Kind("merge-script", run_script, strategy=script_case(tier),
-             examples={"quick": 200, "thorough": 3500}),
+             examples={"quick": 500, "thorough": 8000}),
     ]
